@@ -99,6 +99,23 @@ func c10Pipeline(c *core.C, x []byte, signer ed25519.PublicKey, desc func() any)
 		stage("PrintWorld", func() { _ = az.PrintWorld() })
 		stage("Reset", func() { az.Reset() })
 		stage("Authorize(after reset)", func() { _ = az.Authorize() })
+		// the same token under a tiny fact limit: the first evaluation stops at the limit and
+		// leaves the world above it, the following calls start from there
+		stage("Authorize, Authorize, Query above a fact limit of 3", func() {
+			a, err := tok.AuthorizerFor(biscuit.WithSingularRootPublicKey(signer), biscuit.WithWorldOptions(datalog.WithMaxFacts(3), datalog.WithMaxIterations(50), datalog.WithMaxDuration(200*time.Millisecond)))
+			if err != nil {
+				return
+			}
+			for i := 0; i < 4; i++ {
+				a.AddFact(ast.P("n", ast.Int(int64(i))).LibFact())
+			}
+			a.AddRule(ast.Rule{Head: ast.P("pair", ast.Var("x"), ast.Var("y")), Body: []ast.Pred{ast.P("n", ast.Var("x")), ast.P("n", ast.Var("y"))}}.Lib())
+			a.AddPolicy(ast.Policy{Allow: true, Queries: []ast.Rule{{Head: ast.P("query")}}}.Lib())
+			_ = a.Authorize()
+			_ = a.Authorize()
+			_, _ = a.Query(ast.Rule{Head: ast.P("out", ast.Var("x")), Body: []ast.Pred{ast.P("n", ast.Var("x"))}}.Lib())
+			_ = a.Authorize()
+		})
 	}
 	rng := lib.NewDetRand(c.Seed, fmt.Sprintf("c10-%d", c.Idx))
 	stage("CreateBlock+Append", func() {
@@ -302,11 +319,39 @@ func c10SetPool() []wire.Term {
 	}
 }
 
-func c10NumSetAlgebra() int { n := len(c10SetPool()); return n * n * len(c10SetOps) }
+func c10NumSetAlgebra() int { n := len(c10SetPool()); return n*n*len(c10SetOps) + 9*len(c10SetOps) }
+
+// c10EmptySets: both operands are sets COMPUTED to be empty (an empty set cannot be written into
+// a token, the intersection of two disjoint sets produces one during evaluation).
+func c10EmptySets(k int) (blocks []*wire.Block, what string) {
+	set := func(es ...wire.Term) wire.Term { return wire.Term{Tag: wire.TSet, Set: es} }
+	i := func(v int64) wire.Term { return wire.Term{Tag: wire.TInteger, I: v} }
+	y := func(v byte) wire.Term { return wire.Term{Tag: wire.TBytes, B: []byte{v}} }
+	st := func(v uint64) wire.Term { return wire.Term{Tag: wire.TString, U: v} }
+	pairs := [][2]wire.Term{{set(i(1)), set(i(2))}, {set(y(1)), set(y(2))}, {set(st(0)), set(st(1))}}
+	l, r, op := pairs[k%3], pairs[k/3%3], c10SetOps[k/9%len(c10SetOps)]
+	inter := func(p [2]wire.Term) wire.Expr {
+		return wire.Expr{{Tag: wire.OValue, Val: p[0]}, {Tag: wire.OValue, Val: p[1]}, {Tag: wire.OBinary, Kind: 15}}
+	}
+	e := append(append(wire.Expr{}, inter(l)...), inter(r)...)
+	e = append(e, wire.Op{Tag: wire.OBinary, Kind: op})
+	if op >= 15 {
+		e = append(e, wire.Op{Tag: wire.OUnary, Kind: 2}, wire.Op{Tag: wire.OValue, Val: i(0)}, wire.Op{Tag: wire.OBinary, Kind: 3})
+	}
+	v3 := uint32(3)
+	ctx := ""
+	auth := &wire.Block{Symbols: []string{"p"}, Context: &ctx, Version: &v3}
+	auth.Facts = append(auth.Facts, wire.Pred{Name: 1024, Terms: []wire.Term{i(1)}})
+	auth.Checks = append(auth.Checks, wire.Check{{Head: wire.Pred{Name: 27}, Exprs: []wire.Expr{e}}})
+	return []*wire.Block{auth}, fmt.Sprintf("computed empty sets: (%s & %s) op%d (%s & %s)", l[0].String(), l[1].String(), op, r[0].String(), r[1].String())
+}
 
 func c10SetAlgebra(k int) (blocks []*wire.Block, what string) {
 	pool := c10SetPool()
 	n := len(pool)
+	if k >= n*n*len(c10SetOps) {
+		return c10EmptySets(k - n*n*len(c10SetOps))
+	}
 	a, b, op := pool[k%n], pool[k/n%n], c10SetOps[k/n/n%len(c10SetOps)]
 	v3 := uint32(3)
 	ctx := ""
